@@ -181,6 +181,30 @@ def txn_exit(I, exc):
             hook(I, t, exc)
 
 
+def committed_write_txns(I, tables=None):
+    """ids of the top-level transactions whose writes (to `tables`, default
+    any) were committed on this path"""
+    rolled = set(e[1] for e in I.events if e[0] == 'txn.rollback')
+    out = []
+    for e in I.events:
+        if e[0] == 'db.write' and (tables is None or e[1] in tables):
+            tid = e[3]
+            if tid not in rolled and tid not in out:
+                out.append(tid)
+    return out
+
+
+def oblige_one_writer_txn(I, name, kind='C'):
+    """all surviving writes of the call belong to one top-level writer
+    transaction (A-txn: that transaction is atomic)"""
+    tids = committed_write_txns(I)
+    modes = dict((e[1], e[2]) for e in I.events if e[0] == 'txn.begin')
+    ok = len(tids) <= 1 and all(modes.get(t) == 'writer' for t in tids)
+    I.ex.oblige(name + '.one_writer_txn', ok, kind,
+                {'txns': [str(t) for t in tids],
+                 'signature': name + ' one writer transaction'})
+
+
 def current_txn(I):
     return I.txn_stack[-1] if I.txn_stack else None
 
@@ -366,6 +390,7 @@ def _innermost_repo_frame(I):
 
 class CtxStub(Native):
     """placement.context.RequestContext"""
+    loop_stable = True
 
     def __init__(self):
         self.rc_cache = AttrCache('rc', exception.ResourceClassNotFound)
